@@ -115,6 +115,9 @@ def run(ctx):
         uses = ['write(kb); write(kb.length);', 'write(ks); write(ks.length);', 'for (int i = 0; i < ki.length; i += 1) { write(ki[i]); write(\',\'); }']
         src = '\n'.join(parts[i] for i in order) + '\nempty @is_you() { ' + ' '.join(uses[i] for i in order) + ' ' + ' '.join(uses[i] for i in reversed(order)) + ' }'
         jobs.append(('eqs%s' % ''.join(map(str, order)), src, [], 2, 200, False, 400000))
+    # string constants reached through computed addresses, with index expressions that need the same scratch registers
+    import gen_special
+    jobs += [('si%d' % i, src, a, 2, 200, False, 300000) for i, (src, a, tag) in enumerate(gen_special.order_programs(ctx.rng)) if tag.startswith('string_index')]
     tally, bad, res = suites.differential(ctx, jobs, None, label='constant-data', must_compile=True)
     # independent oracle: the printed prefix must be the literal bytes
     wrong = 0
